@@ -6,14 +6,23 @@ its protocol handler lean/Driver/Notch.lean (ops `c06.*`).
 
 What is compared with the compiled model (correspondence):
   * the defining functions `_stress_implicit` / `_stress_secondary_implicit` of both laws (= `_load_implicit` with swapped
-    arguments) at sampled (stress, load) points incl. the fall-back points (stress = 0, u = 0, cos u <= 0) and negative
-    arguments - relative tolerance 1e-11 on the two terms of the difference / quotient (pow, log, cos differ by ulps
-    between libm and numpy), widened by the condition number of the Seeger-Beste middle term;
-  * extended Neuber: what `stress`, `stress_secondary_branch`, `load`, `load_secondary_branch` return vs the model's
-    bisection root on `[L/K_p, L]` resp. `[s, K_p s]`, within the requested tolerance `tol + rtol |root|`.
+    arguments) at sampled (stress, load) points incl. the fall-back points (stress = 0, u = 0, cos u <= 0, both bracket ends) and
+    negative arguments - relative tolerance 1e-11 on the two terms of the difference / quotient (pow, log, cos differ by ulps
+    between libm and numpy); Seeger-Beste: the u-term (within 4 ulp), the middle term and the quotient, widened by the float
+    conditioning of the middle term GIVEN the u-term (tight when the u-terms are bit-identical);
+  * `strain` / `strain_secondary_branch` of both laws vs the model's `lawStrain` / `lawStrainSec` (relative 1e-12);
+  * both laws: what `stress`, `stress_secondary_branch`, `load`, `load_secondary_branch` return vs the model's bisection root
+    on `[L/K_p, L]` resp. `[s, K_p s]`, within the requested tolerance `tol + rtol |root|` (a miss is tolerated only when the
+    oracle files it under an OPEN known finding), and the model's root vs the independent reference root of the oracle.
 What the oracle evaluates on the real code alone (reference roots by an independent bisection written in Python with a
 cancellation-free middle term): tolerance, bracket, oddness, monotonicity on sorted grids, `load(stress(L)) = L`,
-scalar / ndarray / Series agreement.  Solver `RuntimeError`s are counted, not failed."""
+scalar / ndarray / Series agreement, the strains.  EVERY clause is evaluated for every case: a failure whose class is an open
+known finding is noted (`Prop.known`) and the element is left out of the later clauses, the examination goes on.
+
+Open known findings are tied to their mechanism: `legacy_solver` reproduces the solver algorithm of the tree the findings
+were recorded on (scipy's vectorised / scalar secant resp. Newton iteration with the recorded start values and iteration
+limits, run on the law's own defining functions); a miss belongs to the known class only if the value the code returned IS
+the value of that reproduction (1e-12 relative).  Any other miss gets a class of its own and is reported."""
 import json
 import math
 import warnings
@@ -138,19 +147,101 @@ def call(f, x, t):
     return [float(v) for v in np.atleast_1d(np.asarray(r, dtype=float))]
 
 
-def sb_class(base, rel, Kp):
-    """Finding class of a Seeger-Beste deviation.  The recorded (known) defects are bounded: values a little beside the
-    root / the bracket (float breakdown of the middle term near sigma -> L, early stop of the vectorised secant) and, for
-    K_p next to one, arbitrary spurious roots.  Anything beyond these bounds is a different failure."""
-    if rel <= 2e-2:
-        return base
-    if Kp < 1.05:
-        return "seegerbeste-spurious-root-kp-near-one"
-    return "seegerbeste-wrong-root"
+def call2(f, x, y):
+    """a strain call `f(stress, load)`; list of floats or the exception's name"""
+    try:
+        with warnings.catch_warnings():
+            warnings.simplefilter("ignore")
+            with np.errstate(all="ignore"):
+                r = f(x, y)
+    except Exception as e:      # noqa: BLE001
+        return type(e).__name__
+    return [float(v) for v in np.atleast_1d(np.asarray(r, dtype=float))]
 
 
 def fn(law, name, branch):
     return getattr(law, name + ("" if branch == 1 else "_secondary_branch"))
+
+
+def ulps(a, b):
+    """distance of two doubles in units of the larger one's ulp (inf when only one is nan)"""
+    if a == b or (a != a and b != b):
+        return 0.0
+    if a != a or b != b or math.isinf(a) or math.isinf(b):
+        return math.inf
+    return abs(a - b) / math.ulp(max(abs(a), abs(b)))
+
+
+# ------------------------------------------------------------------ the recorded defective solver algorithms
+LEGACY_TREE = "20f8491"
+
+
+def legacy_solver(case, direction, br, x, t):
+    """What the solver ALGORITHM of the tree the open findings were recorded on (pylife 20f8491) returns for the input `x`
+    (scalar or list), run on the law's own defining functions and derivatives:
+      * ExtendedNeuber.load / load_secondary_branch: scipy Newton, x0 = stress, maxiter = 20 (array input: scipy's vectorised
+        iteration, which returns unconverged elements with a warning only);
+      * SeegerBeste.stress / stress_secondary_branch: scipy secant, x0 = L (1 - (1 - 1/K_p)/1000), maxiter = 50, vectorised for
+        arrays with a scalar retry of the elements reported as not converged; zero entries are set to zero and left out;
+      * SeegerBeste.load / load_secondary_branch: scalar scipy secant, x0 = s / (1 - (1 - 1/K_p)/1000), maxiter = 50 / 20,
+        element by element.
+    Returns a list of floats, 'RuntimeError', or None (no recorded defect for this function).  This is the mechanism the open
+    known findings of C06 are tied to: a miss is 'known' only if the code returned exactly this value."""
+    from scipy import optimize
+    law = make_law({k: v for k, v in case.items() if k != "history"})
+    Kp = case["Kp"]
+    x = np.asarray(x, dtype=float)
+
+    def sb_forward(load):
+        if np.any(load == 0):
+            res = np.zeros_like(load)
+            nz = load != 0
+            if np.any(nz):
+                res[nz] = sb_forward(load[nz])
+            return res[()]
+        F = law._stress_implicit if br == 1 else law._stress_secondary_implicit
+        x0 = load * (1 - (1 - 1 / Kp) / 1000)
+        r = optimize.newton(func=F, x0=x0, args=([load]), full_output=True, rtol=t, tol=t, maxiter=50)
+        if np.size(x0) > 1 and sum(r[1]) < len(r[1]):
+            for i, ok in enumerate(r[1]):
+                if not ok:
+                    q = optimize.newton(func=F, x0=np.asarray(x0)[i], args=([np.asarray(load)[i]]), full_output=True,
+                                        rtol=t, tol=t, maxiter=50)
+                    if q[1].converged:
+                        r[0][i] = q[0]
+        return r[0]
+
+    def sb_backward(stress):
+        if stress.size > 1:
+            return np.array([sb_backward(np.asarray(v, dtype=float)) for v in stress.ravel()]).reshape(stress.shape)
+        if np.any(stress == 0):
+            return np.zeros_like(stress)[()]
+        G = law._load_implicit if br == 1 else law._load_secondary_implicit
+        x0 = stress / (1 - (1 - 1 / Kp) / 1000)
+        return optimize.newton(func=G, x0=x0, args=([stress]), rtol=t, tol=t, maxiter=50 if br == 1 else 20)
+
+    try:
+        with warnings.catch_warnings():
+            warnings.simplefilter("ignore")
+            with np.errstate(all="ignore"):
+                if case["law"] == "neuber":
+                    if direction == "stress":
+                        return None
+                    f, df = ((law._load_implicit, law._d_load_implicit) if br == 1
+                             else (law._load_secondary_implicit, law._d_load_secondary_implicit))
+                    r = optimize.newton(func=f, x0=x, fprime=df, args=([x]), rtol=t, tol=t, maxiter=20)
+                else:
+                    r = sb_forward(x) if direction == "stress" else sb_backward(x)
+    except RuntimeError:
+        return "RuntimeError"
+    except Exception as e:      # noqa: BLE001
+        return type(e).__name__
+    return [float(v) for v in np.atleast_1d(np.asarray(r, dtype=float))]
+
+
+def same_value(v, w):
+    """the value the code returned IS the value of the reproduction (identical operations: a few ulps at most)"""
+    return v == w or (v != v and w != w) or abs(v - w) <= 1e-12 * max(abs(v), abs(w))
 
 
 # ------------------------------------------------------------------ generators
@@ -205,7 +296,7 @@ def add_history(rng, case):
 class C06(Prop):
     ID = "C06"
     SOURCES = SOURCES
-    LEAN_MODULES = ["Proofs.C06", "Proofs.C06SeegerBeste"]
+    LEAN_MODULES = ["Proofs.C06", "Proofs.C06SeegerBeste", "Proofs.C06Solver", "Proofs.C06Newton"]
     THEOREMS = [f"PylifeVerif.C06.{t}" for t in [
         "neuber_bracket", "neuber_strictMono_in_stress", "neuber_exists_unique_root", "neuber_root_odd",
         "neuber_root_strictMono_in_load", "neuber_load_inverse",
@@ -224,35 +315,70 @@ class C06(Prop):
         "seegerBeste_load_inverse",
         "seegerBeste_secondary_exists_unique_root",
         "seegerBeste_secondary_load_inverse",
+        # the strains the laws return; bisection on the bracket = the repaired Seeger-Beste solver (Proofs/C06Solver.lean)
+        "law_strain_rambergOsgood",
+        "neuber_strain_at_root",
+        "seegerBeste_strain_at_root",
+        "law_strain_odd_strictMono",
+        "bisect_encloses_root",
+        "seegerBeste_bisection_converges",
+        "seegerBeste_backward_bisection_converges",
+        # Newton's method of the repaired extended-Neuber backward functions (Proofs/C06Newton.lean)
+        "neuber_dload_is_derivative",
+        "neuber_dload_unrepaired_is_not",
+        "neuberProduct_convexOn",
+        "neuber_backward_newton_monotone",
     ]]
     PARTIAL = {
         "PylifeVerif.C06.seegerBeste_exists_unique_root":
             "Seeger-Beste: existence, uniqueness, monotonicity in stress and load and the inverse are proved for the mathematical equation on the "
             "OPEN bracket L/K_p < sigma < L (Proofs/C06SeegerBeste.lean; lim 2/u^2 ln(1/cos u) = 1 at 0+ and +inf at (pi/2)-).  Not claimed: the end "
-            "points themselves (there the code evaluates np.divide fall-back values that differ from the limits), roots outside the bracket, and the "
-            "behaviour of scipy's secant/Newton iteration - the solver results are measured per run against an independent bisection and four solver "
-            "defects are open known findings",
+            "points themselves (there the code evaluates np.divide fall-back values that differ from the limits) and roots outside the bracket.  "
+            "The iteration of the REPAIRED solver (bisection inside the bracket, tools/fixes/C06-seegerbeste-bracketed-solver.diff) is proved to "
+            "converge to that root (seegerBeste_bisection_converges / _backward_); what scipy's secant / Newton iterations of the unrepaired tree "
+            "return is measured per run against an independent bisection - four solver defects are recorded as known findings",
     }
     RULE = ("case = law (extended Neuber / Seeger-Beste) x FKM-estimated material (3 groups, R_m in [200, 2000]) x K_p in "
             "{1, 1.001, 1.5, 3.5, 10} (Seeger-Beste > 1) or random x tolerance rtol = tol in [1e-10, 1e-4] x spaced grid of loads up to "
-            "4 R_m, both signs, both branches; extended Neuber in addition: a vector holding exact zeros (+0.0, -0.0) among non-zero loads as ndarray / Series / list, and scalar round trips load(stress(L)) at 3 ... 6 R_m (secondary: twice that) for all three material groups.  Correspondence: defining functions of the real objects vs the model at Float "
-            "(relative 1e-11 on the terms; Seeger-Beste widened by the conditioning of the middle term) at the returned roots, inside "
-            "/ at the ends of the bracket, at zero stress and for negative arguments; extended Neuber forward and backward values vs "
-            "the model's bisection roots within tol + rtol |root|.  Oracle (no Lean): reference root by an independent bisection; "
-            "|value - root| <= tol + rtol |root|; |L|/K_p <= |value| <= |L| (within the tolerance); odd; increasing on the grid; "
-            "load(stress(L)) = L; ndarray = Series bit for bit, scalar = array within the tolerance; every element of a vector with zeros as its scalar call (zero -> zero, nan is a failure); a scalar backward call returns the load or raises; a zero load / stress (scalar +0.0, -0.0, or an element of a vector, all four functions of both laws) gives zero, never nan or an error; a re-used object whose K_p / K' were changed through the setters behaves as a freshly constructed one; solver RuntimeErrors counted.  "
-            "Non-trivial = every case in which at least one solver call returned")
+            "4 R_m, both signs, both branches; in addition: a vector holding exact zeros (+0.0, -0.0) among non-zero loads as ndarray / Series / "
+            "list, extended Neuber scalar round trips load(stress(L)) at 3 ... 6 R_m (secondary: twice that) for all three material groups, "
+            "history cases (a used object brought to the reported parameters through the setters).  Correspondence: defining functions of "
+            "the real objects vs the model at Float (relative 1e-11 on the terms) at the returned roots, the reference roots, inside and AT both "
+            "ends of the bracket (u = 0 and u = pi/2), at zero stress, outside the bracket and for negative arguments; Seeger-Beste: u-term within "
+            "4 ulp, middle term and quotient within the float conditioning of the middle term given u (non-finite values must be identical; "
+            "points whose admitted relative error exceeds 1e-3 are counted as sb_F_illconditioned_not_compared); strain / "
+            "strain_secondary_branch vs the model (relative 1e-12); forward and backward solver values of BOTH laws (array calls, "
+            "Seeger-Beste backward also scalar calls) vs the model's bisection roots within tol + rtol |root| - a miss passes only if its class "
+            "is an open known finding; model root vs independent reference root (relative 1e-9).  Oracle (no Lean): reference root by an "
+            "independent bisection; |value - root| <= tol + rtol |root|; |L|/K_p <= |value| <= |L| (within the tolerance); odd; increasing "
+            "on the grid; load(stress(L)) = L for array and scalar calls; ndarray = Series bit for bit, scalar = array within the tolerance; "
+            "every element of a vector with zeros as its scalar call (zero -> zero, nan is a failure); a zero load / stress (scalar +0.0, -0.0, "
+            "or an element of a vector, all four functions of both laws) gives zero, never nan or an error; strain / strain_secondary_branch "
+            "= Ramberg-Osgood (delta) strain of the stress (independent formula, relative 1e-12) for ndarray / Series / scalar / a vector with "
+            "zeros, odd, and at the returned stress equal to the right-hand side of the defining equation at the reference root within the "
+            "propagated tolerance; a re-used object whose K_p / K' were changed through the setters behaves as a freshly constructed one; a "
+            "solver RuntimeError is a failure (class *-solver-raises unless the recorded defective algorithm raises on the same call).  All "
+            "clauses are evaluated for every case (a known-class failure only removes that element from the relations between values); "
+            "counts per class in distribution.failing_cases_* / failing_elements_*.  Non-trivial = every case in which at least one solver "
+            "call returned")
     ASSUMPTIONS = [
-        "C06: theorems are over the reals about the defining functions as coded (incl. the np.divide fall-backs); what "
-        "scipy.optimize.newton returns (convergence, the branch it lands on) is not provable from here - measured per run",
+        "C06: theorems are over the reals about the defining functions as coded (incl. the np.divide fall-backs) and about bisection "
+        "inside the bracket (the halving loop of the repaired Seeger-Beste solver, without its stopping rule and its final clipped linear "
+        "interpolation); what scipy.optimize.newton returns (extended Neuber; Seeger-Beste on the unrepaired tree) is not provable from "
+        "here - measured per run",
+        "C06: Proofs/C06Newton.lean (derivative handed to Newton's method by the repaired ExtendedNeuber.load, monotone iteration from "
+        "K_p sigma) is written from the source of the repaired tree (`roCompliance`, `dLoadImplicit`, `newtonLoad`) and is NOT tied to the "
+        "code by the correspondence: the derivative is not an observable of the property; the values `load` returns are",
+        "C06: the Seeger-Beste middle term is modelled in the cancellation-free form of the repaired code, ln(1/cos u) = log1p(2 sin^2(u/2) / "
+        "cos u) (same fall-backs; Proofs/Lemmas/Notch.lean middleTerm_eq proves it equal to the form ln(1/cos u) of the unrepaired tree over "
+        "the reals); at Float the two forms differ by the cancellation error of cos u -> 1, which the correspondence admits (f1 x 1e-15)",
         "C06: admissible parameters E, K' > 0, 0 < n' < 1, K_p >= 1 (Seeger-Beste K_p > 1) - the code checks none; loads are "
         "non-zero floats (ints and lists are rejected by the code with AttributeError / TypeError and are not generated)",
         "C06: 'to within the requested tolerance' is read as |returned - exact root| <= tol + rtol |root| with rtol = tol; "
         "'element-wise identical' as bit-identical for ndarray vs Series (same code path) and equal within that tolerance for "
         "scalar vs array (scipy's scalar and vectorised iterations stop at different iterates)",
         "C06: a load (stress) of exactly zero belongs to the quantifier ('every load ... both signs'): the stress (load) is zero "
-        "(theorem zero_load: the equations are trivially satisfied there); for it a RuntimeError of the solver is a failure, not a "
-        "counted solver failure, because nothing has to be solved",
+        "(theorem zero_load: the equations are trivially satisfied there)",
         "C06: a law's result is a function of its REPORTED parameters (E, K', n', K_p as the object shows them), not of the object's "
         "history: history cases build an object with other values, use it, set K_p and K' through the setters (`K_p`, `K`, `K_prime`; "
         "there is no setter for E and n') and require (a) equality with a freshly constructed law within the solver tolerance, (b) all "
@@ -260,12 +386,19 @@ class C06(Prop):
         "object's defining functions with the model at the reported parameters in the correspondence",
         "C06: uniqueness is among stresses (loads) of the load's (stress's) sign: F(-s, L) = -F(s, L) and F(s, -L) = F(s, L), the "
         "solver's start value selects the sign",
+        "C06: trusted harness code that decides what is suppressed: `C06._miss_class` + `legacy_solver` (re-implementation of the "
+        "solver algorithms of pylife 20f8491 on top of scipy.optimize.newton: a miss is filed under an open known class only if the "
+        "returned value equals that reproduction to 1e-12) and the independent reference `ref_F` / `ref_root` / `_ref_load` (guideline "
+        "equations with ln(1/cos u) = -1/2 log1p(-sin^2 u); own conventions at the bracket ends: +inf at u <= 0, -1 at u >= pi/2, which "
+        "are never roots; cross-checked against the model's bisection root in every correspondence line of a solver value)",
     ]
 
     def __init__(self):
         self.stats = {}
         self.exhaustive = False
         self._cache = {}
+        self._legacy_cache = {}
+        self._open = None
 
     def _count(self, key, n=1):
         self.stats[key] = self.stats.get(key, 0) + n
@@ -298,31 +431,38 @@ class C06(Prop):
         key = json.dumps(case, sort_keys=True)
         if key in self._cache:
             return self._cache[key]
-        if len(self._cache) > 12:
+        if len(self._cache) > 8000:         # one run of the real code per case for model lines, implementation lines, comparison and oracle
             self._cache.clear()
         law = make_law(case)
         t = case["tol"]
         Ls = [float(x) for x in case["loads"]]
+        n = len(Ls)
         arr = np.array(Ls + [-x for x in Ls])
         out = {}
         for br in (1, 2):
             f = fn(law, "stress", br)
+            g = fn(law, "load", br)
             a = call(f, arr, t)
             s = call(f, pd.Series(arr), t)
             sc = {}
-            for i in sorted({0, len(Ls) // 2, len(Ls) - 1}):
+            for i in sorted({0, n // 2, n - 1}):
                 sc[i] = (call(f, float(Ls[i]), t), call(f, float(-Ls[i]), t))
-            back = None
-            if isinstance(a, list):
-                g = fn(law, "load", br)
-                if case["law"] == "neuber":
-                    back = call(g, np.array(a[:len(Ls)]), t)
-                else:       # "only implemented for the scalar case"
-                    back = [call(g, float(v), t) for v in a[:len(Ls)]]
-                    back = [b[0] if isinstance(b, list) else b for b in back]
+            roots = [ref_root(case, br, L) for L in Ls]
+            # input of the backward functions: the stress the forward function returned; where that is not the root within the
+            # tolerance (a failure of the forward function, judged there) the reference root, so that the backward function is
+            # examined on every load
+            back_in = []
+            for i, x in enumerate(roots):
+                v = a[i] if isinstance(a, list) and len(a) == 2 * n else None
+                back_in.append(v if v is not None and v == v and abs(v - x) <= t + t * abs(x) else x)
+            back_vec = call(g, np.array(back_in), t)
+            if case["law"] == "neuber":
+                back = back_vec
+            else:       # element by element as well (the unchanged tree documents "only implemented for the scalar case")
+                back = [call(g, float(v), t) for v in back_in]
+                back = [b[0] if isinstance(b, list) else b for b in back]
             hi = None
             zl = zero_vector(Ls)
-            g = fn(law, "load", br)
             # the same vector on the stress axis for the backward functions (reference roots, zeros kept)
             sz = [0.0 * x if x == 0 else math.copysign(ref_root(case, br, abs(x)), x) for x in zl]
             zero = {"loads": zl, "arr": call(f, np.array(zl), t), "ser": call(f, pd.Series(zl), t), "list": call(f, list(zl), t),
@@ -336,7 +476,18 @@ class C06(Prop):
                         v = call(f, L1, t)
                         bk = call(g, v[0], t) if isinstance(v, list) and v[0] == v[0] else None
                         hi.append((L1, v, bk))
-            out[br] = {"arr": a, "ser": s, "scalar": sc, "back": back, "zero": zero, "hi": hi}
+            # the strains: at the returned stresses (reference roots where the solver gave none), plus the zero vector
+            e = fn(law, "strain", br)
+            ss = []
+            for i, L in enumerate(arr):
+                v = a[i] if isinstance(a, list) and len(a) == 2 * n else None
+                ss.append(float(v) if v is not None and v == v and abs(v) < 1e300 else math.copysign(roots[i % n], L))
+            strain = {"stresses": ss, "loads": [float(x) for x in arr],
+                      "arr": call2(e, np.array(ss), arr), "ser": call2(e, pd.Series(ss), pd.Series(arr)),
+                      "scalar": {i: call2(e, float(ss[i]), float(arr[i])) for i in sorted({0, n // 2, n - 1, n, 2 * n - 1})},
+                      "zero": call2(e, np.array(sz), np.array(zl))}
+            out[br] = {"arr": a, "ser": s, "scalar": sc, "back": back, "back_vec": back_vec, "back_in": back_in, "roots": roots,
+                       "zero": zero, "hi": hi, "strain": strain}
         self._cache[key] = out
         return out
 
@@ -354,11 +505,40 @@ class C06(Prop):
                 ss = [lo + (L - lo) * 0.5, lo + (L - lo) * 0.05, lo + (L - lo) * 0.95, lo, L, 0.0, 0.3 * lo, 1.2 * L]
                 if isinstance(a, list) and a[i] == a[i] and abs(a[i]) < 1e300:
                     ss.append(a[i])
+                ss.append(run[br]["roots"][i])
                 for s in ss:
                     pts.append((br, s, L))
                 pts.append((br, -ss[0], -L))
                 pts.append((br, ss[1], -L))
+                pts.append((br, -lo, -L))
+                pts.append((br, -L, -L))
         return pts
+
+    def _solver_lines(self, case, run):
+        """(op, branch, argument, value the code returned, call description for the classification)"""
+        out = []
+        Ls = [float(x) for x in case["loads"]]
+        n = len(Ls)
+        arr = Ls + [-x for x in Ls]
+        for br in (1, 2):
+            r = run[br]
+            a = r["arr"]
+            if isinstance(a, list) and len(a) == 2 * n:
+                for i, L in enumerate(arr):
+                    out.append(("c06.root", br, L, a[i], ("stress", arr, i)))
+                z = r["zero"]
+                if isinstance(z["arr"], list) and len(z["arr"]) == len(z["loads"]):
+                    for i, L in enumerate(z["loads"]):
+                        out.append(("c06.root", br, L, z["arr"][i], ("stress", z["loads"], i)))
+            bv = r["back_vec"]
+            if isinstance(bv, list) and len(bv) == n:
+                for i, v in enumerate(r["back_in"]):
+                    out.append(("c06.load", br, v, bv[i], ("load", r["back_in"], i)))
+            if case["law"] != "neuber":
+                for i, v in enumerate(r["back_in"]):
+                    if not isinstance(r["back"][i], str):
+                        out.append(("c06.load", br, v, r["back"][i], ("load", float(v), 0)))
+        return out
 
     def model_lines(self, case):
         run = self._run(case)
@@ -366,18 +546,12 @@ class C06(Prop):
         lines = []
         for br, s, L in self._points(case, run):
             lines.append(f"c06.F {kind_of(case, br)} {mat} {f2h(s)} {f2h(L)}")
-        if case["law"] == "neuber":
-            for br in (1, 2):
-                Ls = case["loads"]
-                for L in Ls + [-x for x in Ls]:
-                    lines.append(f"c06.root {kind_of(case, br)} {mat} {f2h(L)}")
-                if isinstance(run[br]["arr"], list) and isinstance(run[br]["zero"]["arr"], list):
-                    for L in run[br]["zero"]["loads"]:
-                        lines.append(f"c06.root {kind_of(case, br)} {mat} {f2h(L)}")
-                a = run[br]["arr"]
-                if isinstance(a, list) and isinstance(run[br]["back"], list):
-                    for v in a[:len(Ls)]:
-                        lines.append(f"c06.load {kind_of(case, br)} {mat} {f2h(v)}")
+        for br in (1, 2):
+            st = run[br]["strain"]
+            for s, L in zip(st["stresses"], st["loads"]):
+                lines.append(f"c06.strain {kind_of(case, br)} {mat} {f2h(s)} {f2h(L)}")
+        for op, br, x, _v, _c in self._solver_lines(case, run):
+            lines.append(f"{op} {kind_of(case, br)} {mat} {f2h(x)}")
         return lines
 
     def impl_lines(self, case):
@@ -390,23 +564,22 @@ class C06(Prop):
             with np.errstate(all="ignore"):
                 for br, s, L in self._points(case, run):
                     f = law._stress_implicit if br == 1 else law._stress_secondary_implicit
-                    out.append(f2h(float(f(np.float64(s), np.float64(L)))))
-        if case["law"] == "neuber":
-            for br in (1, 2):
-                a = run[br]["arr"]
-                n = len(case["loads"])
-                if isinstance(a, list):
-                    out.extend(f2h(v) for v in a)
-                    self._count("neuber_forward_values", len(a))
-                    if isinstance(run[br]["zero"]["arr"], list):
-                        out.extend(f2h(v) for v in run[br]["zero"]["arr"])
-                        self._count("neuber_forward_values_in_a_vector_with_zeros", len(run[br]["zero"]["arr"]))
-                    if isinstance(run[br]["back"], list):
-                        out.extend(f2h(v) for v in run[br]["back"])
-                        self._count("neuber_backward_values", n)
-                else:
-                    out.extend([a] * (2 * n))
-                    self._count("neuber_forward_" + a)
+                    v = f2h(float(f(np.float64(s), np.float64(L))))
+                    if case["law"] != "neuber":
+                        u = law._u_term if br == 1 else law._u_term_secondary
+                        m = law._middle_term if br == 1 else law._middle_term_secondary
+                        v += " " + f2h(float(u(np.float64(s), np.float64(L)))) + " " + f2h(float(m(np.float64(s), np.float64(L))))
+                    out.append(v)
+        for br in (1, 2):
+            st = run[br]["strain"]
+            if isinstance(st["arr"], list) and len(st["arr"]) == len(st["stresses"]):
+                out.extend(f2h(v) for v in st["arr"])
+            else:
+                out.extend([str(st["arr"])] * len(st["stresses"]))
+        name = "neuber" if case["law"] == "neuber" else "seegerbeste"
+        for op, _br, _x, v, _c in self._solver_lines(case, run):
+            out.append(f2h(v))
+            self._count(f"{name}_{'forward' if op == 'c06.root' else 'backward'}_values_vs_model_root")
         return out
 
     def compare(self, case, model_out, impl_out):
@@ -415,51 +588,82 @@ class C06(Prop):
         run = self._run(case)
         pts = self._points(case, run)
         t = case["tol"]
-        ops = [l.split(" ", 1)[0] for l in self.model_lines(case)]
+        nst = sum(len(run[br]["strain"]["stresses"]) for br in (1, 2))
+        sol = self._solver_lines(case, run)
         for i, (a, b) in enumerate(zip(model_out, impl_out)):
             if i < len(pts):
                 br, s, L = pts[i]
-                toks = a.split()
-                Fm, ta, tb, u = (h2f(x) for x in toks)
-                Fi = h2f(b)
-                if Fm != Fm and Fi != Fi:
-                    continue
+                Fm, ta, tb, um, Mm = (h2f(x) for x in a.split())
+                where = f"line {i}: {kind_of(case, br)} at stress {s!r}, load {L!r}"
                 if case["law"] == "neuber":
-                    ok = abs(Fm - Fi) <= 1e-11 * (abs(ta) + abs(tb)) + 1e-300
-                else:
-                    if not (math.isfinite(Fm) and math.isfinite(Fi)):
-                        ok = (Fm == Fi) or (tb == 0) or abs(tb) < 1e-12 * abs(ta)
-                    else:
-                        # conditioning of the middle term: f1 ln(1/cos u) + f^2 - f with f1 = 2/u^2
-                        c = math.cos(u)
-                        f1 = 2 / (u * u) if u != 0 else 1.0
-                        fr = (s / L) if L != 0 else 1.0
-                        if c > 0:
-                            lg = math.log(1 / c)
-                            err = f1 * (4e-16 / c * max(abs(u), 1.0) + 4e-16 * (1 + abs(lg))) + 4e-16 * (fr * fr + abs(fr))
-                        else:
-                            lg = 0.0
-                            err = 4e-16 * (fr * fr + abs(fr))
-                        mid = f1 * lg + fr * fr - fr
-                        rel = 1e-11 + 10 * err / max(abs(mid), 1e-300)
-                        if rel > 1e-3 or abs(c) < 1e-9:
-                            self._count("sb_F_illconditioned_not_compared")
-                            continue
-                        ok = abs(Fm - Fi) <= rel * (abs(Fm + 1) + abs(Fi + 1)) + 1e-13
-                if not ok:
-                    return (f"line {i}: defining function {kind_of(case, br)} at stress {s!r}, load {L!r}: model={Fm!r} impl={Fi!r} "
-                            f"(terms {ta!r}, {tb!r}, u={u!r})")
-            else:
-                if b == "RuntimeError" or len(b) != 16:
-                    continue
-                vm, vi = h2f(a), h2f(b)
-                if not abs(vm - vi) <= t + t * abs(vm):
-                    if ops[i] == "c06.load":
-                        # backward values: a miss does not invalidate the model (its root is confirmed by the forward
-                        # direction); it is a property failure and is reported, with its class, by the oracle
-                        self._count("neuber_backward_value_off_model_root")
+                    Fi = h2f(b)
+                    if Fm != Fm and Fi != Fi:
                         continue
-                    return f"line {i}: extended Neuber returned {vi!r}, bisection root of the model {vm!r}, tolerance {t!r}"
+                    if not abs(Fm - Fi) <= 1e-11 * (abs(ta) + abs(tb)) + 1e-300:
+                        return f"{where}: defining function: model={Fm!r} impl={Fi!r} (terms {ta!r}, {tb!r})"
+                    continue
+                Fi, ui, Mi = (h2f(x) for x in b.split())
+                # --- the u-term (only + - * / on the arguments): a few ulps
+                du = ulps(um, ui)
+                if du > 4:
+                    return f"{where}: u-term: model={um!r} impl={ui!r}"
+                if du > 0:
+                    self._count("sb_u_term_differs_by_ulps")
+                # --- non-finite values (u = 0: the middle term is 0; zero stress: 0/0) must be the same
+                if not (math.isfinite(Fm) and math.isfinite(Fi)):
+                    if (Fm != Fm and Fi != Fi) or Fm == Fi:
+                        self._count("sb_F_nonfinite_equal")
+                        continue
+                    return f"{where}: defining function: model={Fm!r} impl={Fi!r} (terms {ta!r}, {tb!r}, u={um!r})"
+                # --- float conditioning of the middle term f1 ln(1/cos u) + f^2 - f (f1 = 2/u^2) GIVEN u: the logarithm carries
+                #     an absolute error of a few ulps of max(1, |ln|) (the form ln(1/cos u) of the unchanged tree loses the digits
+                #     of cos u -> 1); when the u-terms differ by ulps the sensitivity tan(u) du is added
+                u = um
+                c = math.cos(u)
+                f1 = 2 / (u * u) if u != 0 else 1.0
+                fr = (s / L) if L != 0 else 1.0
+                lg = math.log(1 / c) if c > 0 else 0.0
+                err = f1 * 1e-15 * (1 + abs(lg)) + 1e-15 * (fr * fr + abs(fr))
+                if du > 0:
+                    err += f1 * 1e-15 * abs(math.tan(u)) * max(abs(u), 1.0) if c != 0 else math.inf
+                if not abs(Mm - Mi) <= err + 1e-300:
+                    return f"{where}: middle term: model={Mm!r} impl={Mi!r} (u={um!r}, admitted error {err!r})"
+                if abs(Mm - Mi) <= 4e-16 * (abs(Mm) + f1 * abs(lg) + fr * fr + abs(fr)):
+                    self._count("sb_middle_term_equal_to_rounding")
+                rel = 1e-11 + 4 * err / max(abs(Mm), 1e-300)
+                if rel > 1e-3:
+                    self._count("sb_F_illconditioned_not_compared")
+                    continue
+                self._count("sb_F_compared")
+                if not abs(Fm - Fi) <= rel * (abs(Fm + 1) + abs(Fi + 1)) + 1e-13:
+                    return (f"{where}: defining function: model={Fm!r} impl={Fi!r} (terms {ta!r}, {tb!r}, u={um!r}, middle term "
+                            f"{Mm!r} / {Mi!r})")
+            elif i < len(pts) + nst:
+                if len(b) != 16:
+                    return f"line {i}: strain raises {b}"
+                vm, vi = h2f(a), h2f(b)
+                if not (vm == vi or abs(vm - vi) <= 1e-12 * abs(vm)):
+                    return f"line {i}: strain of the law: model={vm!r} impl={vi!r}"
+            else:
+                op, br, x, v, (direction, xin, idx) = sol[i - len(pts) - nst]
+                vm = h2f(a)
+                # the model's root and the oracle's independent reference root are the same number
+                if x != 0:
+                    rr = ref_root(case, br, abs(x)) if op == "c06.root" else self._ref_load(case, br, abs(x))
+                    rr = math.copysign(rr, x)
+                    if not abs(vm - rr) <= 1e-9 * abs(rr):
+                        return (f"line {i}: {op} {kind_of(case, br)} {x!r}: bisection root of the model {vm!r}, of the independent "
+                                f"reference equation {rr!r}")
+                if not abs(vm - v) <= t + t * abs(vm):
+                    base = "tolerance" if op == "c06.root" else "backward"
+                    k = self._miss_class(case, direction, br, xin, idx, v, base, abs(v - vm) / abs(vm) if vm != 0 else math.inf)
+                    if k in self._open_known():
+                        # a recorded, open defect of the solver: it does not invalidate the model (whose root is confirmed by the
+                        # independent reference); the oracle reports it under the same class
+                        self._count(f"solver_value_off_model_root_{k}")
+                        continue
+                    return (f"line {i}: {op} {kind_of(case, br)}: the law returned {v!r} for {x!r}, bisection root of the model {vm!r}, "
+                            f"tolerance {t!r} ({k})")
         return None
 
     def nontrivial(self, case, model_out):
@@ -467,6 +671,65 @@ class C06(Prop):
         if any(isinstance(run[br]["arr"], list) for br in (1, 2)):
             return json.dumps(case, sort_keys=True)
         return None
+
+    # -------------------------------------------------------------- classification of solver misses
+    def _open_known(self):
+        if self._open is None:
+            from .core import load_known
+            self._open = {e["class"] for e in load_known("C06") if e.get("status") == "open"}
+        return self._open
+
+    def _ref_load(self, case, br, s):
+        """load whose root is the stress s > 0: bisection of the reference equation on [s, K_p s] (F decreases in the load)"""
+        lo, hi = s, case["Kp"] * s
+        for _ in range(200):
+            mid = (lo + hi) / 2
+            if mid <= lo or mid >= hi:
+                break
+            if ref_F(case, br, s, mid) > 0:
+                lo = mid
+            else:
+                hi = mid
+        return (lo + hi) / 2
+
+    def _legacy(self, case, direction, br, xin):
+        key = (json.dumps({k: v for k, v in case.items() if k != "history"}, sort_keys=True), direction, br,
+               tuple(xin) if isinstance(xin, (list, tuple)) else float(xin))
+        if key not in self._legacy_cache:
+            if len(self._legacy_cache) > 200:
+                self._legacy_cache.clear()
+            self._legacy_cache[key] = legacy_solver(case, direction, br, xin, case["tol"])
+        return self._legacy_cache[key]
+
+    def _miss_class(self, case, direction, br, xin, idx, v, base, rel):
+        """Finding class of a solver result `v` (a float, or the name of the exception) for element `idx` of the input `xin` of
+        `stress` / `load` (`direction`) that is not the root within the tolerance.  base: 'outside-bracket' | 'tolerance' |
+        'backward' | 'raises'.  The open known classes are returned only when `v` is what the recorded defective algorithm
+        (`legacy_solver`) yields for this very call; the recorded Seeger-Beste defects are moreover bounded (within 2 % of the
+        root, except for K_p next to one)."""
+        name = "neuber" if case["law"] == "neuber" else "seegerbeste"
+        leg = self._legacy(case, direction, br, xin)
+        if isinstance(v, str):
+            recorded = isinstance(leg, str) and leg == v
+        else:
+            recorded = isinstance(leg, list) and idx < len(leg) and same_value(v, leg[idx])
+        self._count(f"misses_{'equal_to' if recorded else 'different_from'}_recorded_algorithm")
+        if name == "neuber":
+            if direction == "load" and recorded:
+                return "neuber-backward-unconverged"
+            return {"outside-bracket": "neuber-outside-bracket", "tolerance": "neuber-tolerance", "backward": "neuber-inverse",
+                    "raises": "neuber-solver-raises"}[base]
+        if not recorded:
+            return "seegerbeste-solver-raises" if base == "raises" else "seegerbeste-wrong-root"
+        if base == "raises":
+            # the recorded secant iteration gives up (RuntimeError) instead of returning a value off the root: no value within
+            # the tolerance either - filed with the recorded tolerance defect
+            return "seegerbeste-tolerance"
+        if rel <= 2e-2:
+            return "seegerbeste-outside-bracket" if base == "outside-bracket" else "seegerbeste-tolerance"
+        if case["Kp"] < 1.05:
+            return "seegerbeste-spurious-root-kp-near-one"
+        return "seegerbeste-wrong-root"
 
     # -------------------------------------------------------------- direct property oracle (real code only)
     def _oracle_history(self, case):
@@ -481,7 +744,7 @@ class C06(Prop):
                + (f", K'={case['K']!r} (setter {h['via']})" if h["via"] != "none" else ""))
 
         def flat(r):
-            items = [("array", r["arr"]), ("Series", r["ser"]), ("backward", r["back"])]
+            items = [("array", r["arr"]), ("Series", r["ser"]), ("backward", r["back"]), ("strain", r["strain"]["arr"])]
             items += [(f"scalar[{i}]", v) for i, pq in sorted(r["scalar"].items()) for v in pq]
             z = r.get("zero")
             if z:
@@ -499,191 +762,313 @@ class C06(Prop):
                     if isinstance(x, str) or isinstance(y, str):
                         continue
                     self._count(f"{name}_history_values_compared")
-                    if not (x == y or (x != x and y != y) or abs(x - y) <= 2 * (t + t * abs(y))):
+                    slack = 2 * (t + t * abs(y)) if label != "strain" else 1e-12 * abs(y)
+                    if not (x == y or (x != x and y != y) or abs(x - y) <= slack):
                         return (f"{case['law']} branch {br}, {label}[{i}] (E={case['E']!r}, K'={case['K']!r}, n'={case['n']!r}, K_p={case['Kp']!r}, "
                                 f"rtol=tol={t!r}, loads {case['loads']!r}): the {how} returns {x!r}, a freshly constructed law with the same "
                                 f"parameters {y!r}", f"{name}-history")
         return None
 
     def oracle(self, case):
+        """Every clause is evaluated; the failures come in the order of the clauses.  A failure of an open known class is noted
+        (`Prop.known`) and the examination goes on; the first other failure is the verdict of the case."""
+        fails = self._failures(case)
+        seen = set()
+        for d, k in fails:
+            self._count(f"failing_elements_{k}")
+            if k not in seen:
+                seen.add(k)
+                self._count(f"failing_cases_{k}")
+        for d, k in fails:
+            if not self.known(k, d):
+                return (d, k)
+        return None
+
+    def _failures(self, case):
+        F = []
         if case.get("history"):
             d = self._oracle_history(case)
             if d:
-                return d
+                F.append(d)
         run = self._run(case)
         t = case["tol"]
-        Ls = case["loads"]
+        Ls = [float(x) for x in case["loads"]]
         n = len(Ls)
+        arr = Ls + [-x for x in Ls]
         Kp = case["Kp"]
-        name = "neuber" if case["law"] == "neuber" else "seegerbeste"
+        neuber = case["law"] == "neuber"
+        name = "neuber" if neuber else "seegerbeste"
         for br in (1, 2):
-            what = f"{case['law']} {'stress' if br == 1 else 'stress_secondary_branch'} (E={case['E']!r}, K'={case['K']!r}, n'={case['n']!r}, K_p={Kp!r}, rtol=tol={t!r})"
+            sfx = "" if br == 1 else "_secondary_branch"
+            what = f"{case['law']} stress{sfx} (E={case['E']!r}, K'={case['K']!r}, n'={case['n']!r}, K_p={Kp!r}, rtol=tol={t!r})"
             r = run[br]
             a, s = r["arr"], r["ser"]
+            roots = r["roots"]
+            tolv = [t + t * abs(x) for x in roots]
+            taint = set()           # elements of the forward vector whose value failed: left out of the relations between values
+            # ---------------- containers
             for v in (a, s):
                 if isinstance(v, str) and v != "RuntimeError":
-                    return (f"{what}: array / Series input raises {v}", f"{name}-containers")
+                    F.append((f"{what}: array / Series input raises {v}", f"{name}-containers"))
             if isinstance(a, str) or isinstance(s, str):
                 self._count(f"{name}_solver_raises_array")
                 if a != s:
-                    return (f"{what}: ndarray gives {a if isinstance(a, str) else 'values'}, Series gives {s if isinstance(s, str) else 'values'}",
-                            f"{name}-containers")
-                continue
-            if len(a) != 2 * n or a != s and not all(x == y or (x != x and y != y) for x, y in zip(a, s)):
-                return (f"{what}: ndarray and Series inputs give different results", f"{name}-containers")
-            roots = [ref_root(case, br, L) for L in Ls]
-            tolv = [t + t * abs(x) for x in roots]
-            self._count(f"{name}_values_checked", 2 * n)
-            # --- bracket and sign (within the tolerance)
-            for L, v, tv in zip(Ls + [-x for x in Ls], a, tolv + tolv):
-                if not (v == v) or not (abs(L) / Kp - tv <= abs(v) <= abs(L) + tv) or (v > 0) != (L > 0):
-                    rel = max(abs(L) / Kp - abs(v), abs(v) - abs(L)) / abs(L) if (v == v and (v > 0) == (L > 0)) else math.inf
-                    return (f"{what}: load {L!r} -> {v!r}, outside [|L|/K_p, |L|] = [{abs(L) / Kp!r}, {abs(L)!r}] (sign of the load)",
-                            f"{name}-outside-bracket" if name == "neuber" else sb_class(f"{name}-outside-bracket", rel, Kp))
-            # --- root of the defining equation within the requested tolerance
-            for L, v, x, tv in zip(Ls, a[:n], roots, tolv):
-                if abs(v - x) > tv:
-                    return (f"{what}: load {L!r} -> {v!r}; root of the defining equation {x!r}: off by {abs(v - x)!r} > tol + rtol |root| = {tv!r}",
-                            f"{name}-tolerance" if name == "neuber" else sb_class(f"{name}-tolerance", abs(v - x) / abs(x), Kp))
-            # --- odd
-            for L, v, w, tv in zip(Ls, a[:n], a[n:], tolv):
-                if abs(v + w) > 2 * tv:
-                    return (f"{what}: not odd: f({L!r}) = {v!r}, f({-L!r}) = {w!r}", f"{name}-odd")
-            # --- strictly increasing on the (spaced) grid
-            for (L1, v1, x1, t1), (L2, v2, x2, _t2) in zip(zip(Ls, a, roots, tolv), list(zip(Ls, a, roots, tolv))[1:]):
-                if not v1 < v2 and x2 - x1 > 4 * t1:
-                    return (f"{what}: not increasing: f({L1!r}) = {v1!r} >= f({L2!r}) = {v2!r}", f"{name}-monotone")
-            # --- scalar = array within the tolerance; a scalar must be accepted (F-11)
+                    F.append((f"{what}: ndarray gives {a if isinstance(a, str) else 'values'}, Series gives {s if isinstance(s, str) else 'values'}",
+                              f"{name}-containers"))
+                if a == "RuntimeError":
+                    F.append((f"{what}: the solver raises RuntimeError for the loads {arr!r}",
+                              self._miss_class(case, "stress", br, arr, 0, a, "raises", math.inf)))
+                a = None
+            elif len(a) != 2 * n or a != s and not all(x == y or (x != x and y != y) for x, y in zip(a, s)):
+                F.append((f"{what}: ndarray and Series inputs give different results", f"{name}-containers"))
+                if len(a) != 2 * n:
+                    a = None
+            if a is not None:
+                self._count(f"{name}_values_checked", 2 * n)
+                # ---------------- bracket and sign (within the tolerance), root of the defining equation within the tolerance
+                for i, (L, v) in enumerate(zip(arr, a)):
+                    x, tv = math.copysign(roots[i % n], L), tolv[i % n]
+                    if not (v == v) or not (abs(L) / Kp - tv <= abs(v) <= abs(L) + tv) or (v > 0) != (L > 0):
+                        rel = max(abs(L) / Kp - abs(v), abs(v) - abs(L)) / abs(L) if (v == v and (v > 0) == (L > 0)) else math.inf
+                        taint.add(i)
+                        F.append((f"{what}: load {L!r} -> {v!r}, outside [|L|/K_p, |L|] = [{abs(L) / Kp!r}, {abs(L)!r}] (sign of the load)",
+                                  self._miss_class(case, "stress", br, arr, i, v, "outside-bracket", rel)))
+                    elif abs(v - x) > tv:
+                        taint.add(i)
+                        F.append((f"{what}: load {L!r} -> {v!r}; root of the defining equation {x!r}: off by {abs(v - x)!r} > tol + rtol |root| = {tv!r}",
+                                  self._miss_class(case, "stress", br, arr, i, v, "tolerance", abs(v - x) / abs(x))))
+                # ---------------- odd
+                for i in range(n):
+                    if i in taint or n + i in taint:
+                        continue
+                    if abs(a[i] + a[n + i]) > 2 * tolv[i]:
+                        F.append((f"{what}: not odd: f({Ls[i]!r}) = {a[i]!r}, f({-Ls[i]!r}) = {a[n + i]!r}", f"{name}-odd"))
+                # ---------------- strictly increasing on the (spaced) grid
+                for i in range(n - 1):
+                    if i in taint or i + 1 in taint:
+                        continue
+                    if not a[i] < a[i + 1] and roots[i + 1] - roots[i] > 4 * tolv[i]:
+                        F.append((f"{what}: not increasing: f({Ls[i]!r}) = {a[i]!r} >= f({Ls[i + 1]!r}) = {a[i + 1]!r}", f"{name}-monotone"))
+            # ---------------- scalar input: accepted (F-11), the root within the tolerance, hence = the array value within 2 tol
             for i, (p, q) in r["scalar"].items():
-                for L, v, ref in ((Ls[i], p, a[i]), (-Ls[i], q, a[n + i])):
+                for L, v, j in ((Ls[i], p, i), (-Ls[i], q, n + i)):
+                    x, tv = math.copysign(roots[i], L), tolv[i]
                     if isinstance(v, str) and v != "RuntimeError":
-                        return (f"{what}: scalar load {L!r} raises {v} (not a solver failure)", f"{name}-scalar-input")
+                        F.append((f"{what}: scalar load {L!r} raises {v} (not a solver failure)", f"{name}-scalar-input"))
+                        continue
                     if isinstance(v, str):
                         self._count(f"{name}_solver_raises_scalar")
+                        F.append((f"{what}: scalar load {L!r}: the solver raises RuntimeError",
+                                  self._miss_class(case, "stress", br, float(L), 0, v, "raises", math.inf)))
                         continue
-                    if abs(v[0] - ref) > 2 * tolv[i]:
-                        return (f"{what}: scalar input {Ls[i]!r} gives {v[0]!r}, the same load inside an array {ref!r}",
-                                f"{name}-containers" if name == "neuber" else sb_class(f"{name}-tolerance", abs(v[0] - ref) / abs(ref), Kp))
-            # --- a vector that holds exact zeros among other loads: every element as for the scalar call, zero -> zero
+                    self._count(f"{name}_scalar_values_checked")
+                    w = v[0]
+                    if not (w == w) or not (abs(L) / Kp - tv <= abs(w) <= abs(L) + tv) or (w > 0) != (L > 0):
+                        rel = max(abs(L) / Kp - abs(w), abs(w) - abs(L)) / abs(L) if (w == w and (w > 0) == (L > 0)) else math.inf
+                        F.append((f"{what}: scalar load {L!r} -> {w!r}, outside [|L|/K_p, |L|] (sign of the load)",
+                                  self._miss_class(case, "stress", br, float(L), 0, w, "outside-bracket", rel)))
+                    elif abs(w - x) > tv:
+                        F.append((f"{what}: scalar load {L!r} -> {w!r}; root of the defining equation {x!r}",
+                                  self._miss_class(case, "stress", br, float(L), 0, w, "tolerance", abs(w - x) / abs(x))))
+                    elif a is not None and j not in taint and abs(w - a[j]) > 2 * tv:
+                        F.append((f"{what}: scalar input {L!r} gives {w!r}, the same load inside an array {a[j]!r}", f"{name}-containers"))
+            # ---------------- a vector that holds exact zeros among other loads: every element as for the scalar call, zero -> zero
             z = r.get("zero")
             if z is not None:
-                d = self._oracle_zero(case, br, what, name, z)
-                if d:
-                    return d
-            if z is not None and name == "neuber":
-                refz = [0.0 if x == 0 else math.copysign(ref_root(case, br, abs(x)), x) for x in z["loads"]]
-                for cname in ("arr", "ser", "list"):
-                    got = z[cname]
-                    if isinstance(got, str):
-                        if got == "RuntimeError":
-                            self._count("neuber_solver_raises_zero_vector")
-                            continue
-                        return (f"{what}: {cname} input {z['loads']!r} raises {got}", "neuber-containers")
-                    self._count("neuber_zero_vector_elements_checked", len(got))
-                    for x, v, rx, sc in zip(z["loads"], got, refz, z["scalar"]):
-                        tv = t + t * abs(rx)
-                        if not (v == v) or abs(v - rx) > tv or (x == 0 and v != 0):
-                            scal = sc[0] if isinstance(sc, list) else sc
-                            return (f"{what}: the load {x!r} inside the {cname} {z['loads']!r} gives {v!r}; as a scalar it gives {scal!r}, "
-                                    f"root of the defining equation {rx!r}", "neuber-containers")
-                for x, sc, rx in zip(z["loads"], z["scalar"], refz):
-                    if isinstance(sc, list) and (not (sc[0] == sc[0]) or abs(sc[0] - rx) > t + t * abs(rx)):
-                        return (f"{what}: scalar load {x!r} gives {sc[0]!r}, root {rx!r}", "neuber-tolerance")
-            # --- scalar round trip at the upper edge of the load range: load(stress(L)) is L, or the solver raises - a scalar
-            #     result is never covered by the recorded finding about silently unconverged ARRAY results
+                F.extend(self._oracle_zero(case, br, what, name, z))
+            # ---------------- extended Neuber: scalar round trip at the upper edge of the load range
             for L1, v, bk in (r.get("hi") or []):
                 if isinstance(v, str) or bk is None:
                     if isinstance(v, str) and v != "RuntimeError":
-                        return (f"{what}: scalar load {L1!r} raises {v}", "neuber-scalar-input")
-                    self._count("neuber_solver_raises_scalar_high_load")
+                        F.append((f"{what}: scalar load {L1!r} raises {v}", "neuber-scalar-input"))
+                    else:
+                        self._count("neuber_solver_raises_scalar_high_load")
+                        F.append((f"{what}: scalar load {L1!r}: the solver raises RuntimeError or returns nan",
+                                  self._miss_class(case, "stress", br, float(L1), 0, v if isinstance(v, str) else math.nan, "raises", math.inf)))
                     continue
                 if isinstance(bk, str):
                     if bk != "RuntimeError":
-                        return (f"{what}: load({v[0]!r}) raises {bk}", "neuber-scalar-input")
-                    self._count("neuber_backward_scalar_raises_high_load")
+                        F.append((f"{what}: load({v[0]!r}) raises {bk}", "neuber-scalar-input"))
+                    else:
+                        self._count("neuber_backward_scalar_raises_high_load")
+                        F.append((f"{what}: scalar round trip load(stress({L1!r})) = load({v[0]!r}) raises RuntimeError (R_m = {case['Rm']!r}, {case['group']})",
+                                  self._miss_class(case, "load", br, float(v[0]), 0, bk, "raises", math.inf)))
                     continue
                 self._count("neuber_backward_scalar_returned_high_load")
                 if not (bk[0] == bk[0]) or abs(bk[0] - L1) > 6 * (t + t * abs(L1)):
-                    return (f"{what}: scalar round trip load(stress({L1!r})) = load({v[0]!r}) = {bk[0]!r} (R_m = {case['Rm']!r}, "
-                            f"{case['group']}): returned without an error and is not the load", "neuber-inverse")
-            # --- backward = inverse
-            back = r["back"]
-            if isinstance(back, str):
-                if back != "RuntimeError":
-                    return (f"{what}: load() raises {back}", f"{name}-containers")
-                self._count(f"{name}_solver_raises_backward")
-                continue
-            for L, v, bk, tv in zip(Ls, a[:n], back, tolv):
-                if isinstance(bk, str):
-                    if bk != "RuntimeError":
-                        return (f"{what}: load({v!r}) raises {bk}", f"{name}-scalar-input")
-                    self._count(f"{name}_solver_raises_backward")
+                    F.append((f"{what}: scalar round trip load(stress({L1!r})) = load({v[0]!r}) = {bk[0]!r} (R_m = {case['Rm']!r}, "
+                              f"{case['group']}): returned without an error and is not the load",
+                              self._miss_class(case, "load", br, float(v[0]), 0, bk[0], "backward", abs(bk[0] - L1) / abs(L1))))
+            # ---------------- backward = inverse (on the returned stresses; reference roots where the forward value failed)
+            for label, back, vec in (("array", r["back_vec"], True), ("scalar", r["back"], False)):
+                if vec is False and neuber:
                     continue
-                if abs(bk - L) > 6 * (t + t * abs(L)) + 6 * tv:
-                    return (f"{what}: load(stress({L!r})) = load({v!r}) = {bk!r}",
-                            self._neuber_backward_class(case, br, v, abs(bk - L), L) if name == "neuber" else sb_class(f"{name}-tolerance", abs(bk - L) / abs(L), Kp))
-        return None
+                if isinstance(back, str):
+                    if back != "RuntimeError":
+                        F.append((f"{what}: load{sfx}({r['back_in']!r}) raises {back}", f"{name}-containers"))
+                    else:
+                        self._count(f"{name}_solver_raises_backward")
+                        F.append((f"{what}: load{sfx}({r['back_in']!r}) raises RuntimeError",
+                                  self._miss_class(case, "load", br, r["back_in"], 0, back, "raises", math.inf)))
+                    continue
+                if len(back) != n:
+                    F.append((f"{what}: load{sfx}({r['back_in']!r}) returns {len(back)} values", f"{name}-containers"))
+                    continue
+                for i, (L, v, bk, tv) in enumerate(zip(Ls, r["back_in"], back, tolv)):
+                    xin, idx = (r["back_in"], i) if vec else (float(v), 0)
+                    if isinstance(bk, str):
+                        if bk != "RuntimeError":
+                            F.append((f"{what}: load{sfx}({v!r}) raises {bk}", f"{name}-scalar-input"))
+                        else:
+                            self._count(f"{name}_solver_raises_backward")
+                            F.append((f"{what}: load{sfx}({v!r}) raises RuntimeError",
+                                      self._miss_class(case, "load", br, xin, idx, bk, "raises", math.inf)))
+                        continue
+                    self._count(f"{name}_backward_values_checked")
+                    if not (bk == bk) or abs(bk - L) > 6 * (t + t * abs(L)) + 6 * tv:
+                        F.append((f"{what}: load{sfx}(stress{sfx}({L!r})) = load{sfx}({v!r}) = {bk!r} ({label} call)",
+                                  self._miss_class(case, "load", br, xin, idx, bk, "backward", abs(bk - L) / abs(L) if bk == bk else math.inf)))
+                if not neuber and vec and isinstance(r["back"], list):
+                    for i, (p, q) in enumerate(zip(back, r["back"])):
+                        if isinstance(q, str) or isinstance(p, str):
+                            continue
+                        if abs(p - q) > 12 * (t + t * abs(Ls[i])):
+                            F.append((f"{what}: load{sfx} of the vector {r['back_in']!r} gives {p!r} for the stress {r['back_in'][i]!r}; the scalar "
+                                      f"call gives {q!r}", "seegerbeste-backward-vector"))
+            # ---------------- the strains
+            F.extend(self._oracle_strain(case, br, name, r, taint, a is not None))
+        return F
 
-    def _neuber_backward_class(self, case, br, stress, dev, L):
-        """Class of an ARRAY result of ExtendedNeuber.load that misses the load.  The recorded defect is: the vectorised Newton
-        iteration returns elements that have not converged after 20 iterations without an error.  It is recognised by a small miss
-        (<= 0.2 %), or - for a larger one - by the scalar call on the same stress reporting the non-convergence (RuntimeError).
-        A miss while the scalar call returns is a different failure."""
-        if dev <= 2e-3 * abs(L):
-            return "neuber-backward-unconverged"
-        sc = call(fn(make_law(case), "load", br), float(stress), case["tol"])
-        if sc == "RuntimeError":
-            self._count("neuber_backward_array_unconverged_confirmed_by_scalar_raise")
-            return "neuber-backward-unconverged"
-        return "neuber-inverse"
+    def _oracle_strain(self, case, br, name, r, taint, have_roots):
+        """`strain(sigma, L)` / `strain_secondary_branch(d sigma, d L)`: the Ramberg-Osgood strain (Masing-doubled on the secondary
+        branch) of the stress, for every container; at the stress the law returned it satisfies the law's defining equation
+        (strain = K_p e*(L) L / sigma [x middle term]) within the propagated tolerance; odd."""
+        F = []
+        E, K, n_, Kp, t = case["E"], case["K"], case["n"], case["Kp"], case["tol"]
+        sfx = "" if br == 1 else "_secondary_branch"
+        what = f"{case['law']} strain{sfx} (E={E!r}, K'={K!r}, n'={n_!r}, K_p={Kp!r})"
+        st = r["strain"]
+        ss, Lv = st["stresses"], st["loads"]
+        n = len(ss) // 2
+
+        def want(s):
+            return ro(E, K, n_, s) if br == 1 else 2 * ro(E, K, n_, s / 2)
+        got = st["arr"]
+        for label, v in (("ndarray", st["arr"]), ("Series", st["ser"]), ("zero vector", st["zero"])):
+            if isinstance(v, str):
+                F.append((f"{what}: {label} input raises {v}", f"{name}-strain"))
+        if isinstance(got, str):
+            return F
+        if len(got) != len(ss):
+            return F + [(f"{what}: {len(got)} values for {len(ss)} stresses", f"{name}-strain")]
+        if isinstance(st["ser"], list) and st["ser"] != got and not all(x == y or (x != x and y != y) for x, y in zip(st["ser"], got)):
+            F.append((f"{what}: ndarray and Series inputs give different results", f"{name}-strain"))
+        for i, (s, L, e) in enumerate(zip(ss, Lv, got)):
+            self._count(f"{name}_strain_values_checked")
+            w = want(s)
+            if not (e == e) or abs(e - w) > 1e-12 * abs(w):
+                F.append((f"{what}: strain{sfx}({s!r}, {L!r}) = {e!r}, Ramberg-Osgood {'strain' if br == 1 else 'delta strain'} of the stress {w!r}",
+                          f"{name}-strain"))
+                break
+        for i, v in st["scalar"].items():
+            if isinstance(v, str):
+                F.append((f"{what}: scalar input ({ss[i]!r}, {Lv[i]!r}) raises {v}", f"{name}-strain"))
+            elif v[0] != got[i] and not (v[0] != v[0] and got[i] != got[i]):
+                F.append((f"{what}: scalar input ({ss[i]!r}, {Lv[i]!r}) gives {v[0]!r}, inside an array {got[i]!r}", f"{name}-strain"))
+        for i in range(n):
+            if ss[i] == -ss[n + i] and got[i] != -got[n + i]:
+                F.append((f"{what}: not odd: {got[i]!r} at {ss[i]!r}, {got[n + i]!r} at {ss[n + i]!r}", f"{name}-strain"))
+        if isinstance(st["zero"], list):
+            for s, e in zip(r["zero"]["stresses"], st["zero"]):
+                w = want(s)
+                if not (e == w or abs(e - w) <= 1e-12 * abs(w)) or (s == 0 and e != 0):
+                    F.append((f"{what}: stress {s!r} inside the vector {r['zero']['stresses']!r} gives the strain {e!r} instead of {w!r}", f"{name}-strain"))
+                    break
+        # the defining equation with the Ramberg-Osgood strain, at the stresses the law returned
+        if have_roots:
+            for i, (s, L, e) in enumerate(zip(ss, Lv, got)):
+                if i in taint or not (e == e):
+                    continue
+                x = math.copysign(r["roots"][i % n], L)
+                sb, Lb, xb = (abs(s), abs(L), abs(x)) if br == 1 else (abs(s) / 2, abs(L) / 2, abs(x) / 2)
+                rhs = (Lb / xb) * Kp * ro(E, K, n_, Lb / Kp)
+                if case["law"] != "neuber":
+                    u = (math.pi / 2) * ((Lb / xb - 1) / (Kp - 1))
+                    if 0 < u < math.pi / 2:
+                        su = math.sin(u)
+                        rhs *= (2 / (u * u)) * (-0.5 * math.log1p(-su * su)) + (xb / Lb) ** 2 - xb / Lb
+                    # u = 0: the root is the load itself, middle term -> 1
+                if br == 2:
+                    rhs *= 2
+                rhs = math.copysign(rhs, L)
+                # d strain / d stress at the larger of the two stresses (convex for positive stresses)
+                m = max(sb, xb)
+                slope = 1 / E + (m / K) ** (1 / n_ - 1) / (n_ * K)
+                self._count(f"{name}_strain_equation_checked")
+                if abs(e - rhs) > 1.5 * slope * (t + t * abs(x)) + 1e-9 * abs(rhs):
+                    F.append((f"{what}: at the stress {s!r} returned for the load {L!r} the strain is {e!r}; the right-hand side of the "
+                              f"defining equation at the root {x!r} is {rhs!r}", f"{name}-strain-equation"))
+                    break
+        return F
 
     def _oracle_zero(self, case, br, what, name, z):
-        """A load (stress) of exactly zero, alone or inside a vector: the stress (load) is zero - never nan, never an error
-        (the defining equations are trivially satisfied there).  Extended Neuber forward is judged by the caller."""
+        """A vector that holds exact zeros among other loads (stresses): every element as for the scalar call; a load (stress) of
+        exactly zero, alone or inside a vector, gives zero - never nan, never an error (the defining equations are trivially
+        satisfied there)."""
+        F = []
         t, Kp = case["tol"], case["Kp"]
         zcls = "neuber-backward-zero-nan" if name == "neuber" else "seegerbeste-zero-load-nan"
+        fcls = "neuber-containers" if name == "neuber" else "seegerbeste-zero-load-nan"
         refz = [0.0 if x == 0 else math.copysign(ref_root(case, br, abs(x)), x) for x in z["loads"]]
-        runs = [("load" if br == 1 else "load_secondary_branch", z["stresses"], z["loads"], [z["back_arr"], z["back_ser"]], z["back_scalar0"])]
-        if name != "neuber":
-            runs.append(("stress" if br == 1 else "stress_secondary_branch", z["loads"], refz, [z["arr"], z["ser"], z["list"]],
-                         [z["scalar"][1], z["scalar"][3]]))
-        for fname, xs, want, results, scalar0 in runs:
+        runs = [("load" if br == 1 else "load_secondary_branch", "load", z["stresses"], z["loads"], [z["back_arr"], z["back_ser"]],
+                 z["back_scalar0"], zcls),
+                ("stress" if br == 1 else "stress_secondary_branch", "stress", z["loads"], refz, [z["arr"], z["ser"], z["list"]],
+                 [z["scalar"][1], z["scalar"][3]], fcls)]
+        for fname, direction, xs, want, results, scalar0, kz in runs:
             for sc, x in zip(scalar0, (0.0, -0.0)):
                 if not (isinstance(sc, list) and sc[0] == 0):
-                    return (f"{what}: {fname}({x!r}) {'raises ' + sc if isinstance(sc, str) else 'returns ' + repr(sc[0])} instead of 0", zcls)
+                    F.append((f"{what}: {fname}({x!r}) {'raises ' + sc if isinstance(sc, str) else 'returns ' + repr(sc[0])} instead of 0", kz))
             for got in results:
                 if isinstance(got, str):
                     if got == "RuntimeError":
                         self._count(f"{name}_solver_raises_zero_vector")
-                        continue
-                    return (f"{what}: {fname}({xs!r}) raises {got}", zcls)
+                        F.append((f"{what}: {fname}({xs!r}) raises RuntimeError",
+                                  self._miss_class(case, direction, br, xs, 0, got, "raises", math.inf)))
+                    else:
+                        F.append((f"{what}: {fname}({xs!r}) raises {got}", kz))
+                    continue
                 self._count(f"{name}_zero_vector_elements_checked", len(got))
                 if len(got) != len(xs):
-                    return (f"{what}: {fname}({xs!r}) returns {len(got)} values", zcls)
-                for x, v, w in zip(xs, got, want):
+                    F.append((f"{what}: {fname}({xs!r}) returns {len(got)} values", kz))
+                    continue
+                for i, (x, v, w) in enumerate(zip(xs, got, want)):
                     if x == 0:
                         if v != 0:
-                            return (f"{what}: {fname} of the vector {xs!r} gives {v!r} for the element {x!r} instead of 0 "
-                                    f"(the scalar call gives {scalar0[0][0]!r})", zcls)
+                            F.append((f"{what}: {fname} of the vector {xs!r} gives {v!r} for the element {x!r} instead of 0 "
+                                      f"(the scalar call gives {scalar0[0][0] if isinstance(scalar0[0], list) else scalar0[0]!r})", kz))
                         continue
                     dev = abs(v - w) if v == v else math.inf
-                    if fname.startswith("load"):
+                    if direction == "load":
                         if dev > 12 * (t + t * abs(w)):
-                            if name == "neuber":
-                                return (f"{what}: {fname}({xs!r}) gives {v!r} for the stress {x!r} of the load {w!r}",
-                                        self._neuber_backward_class(case, br, x, dev, w))
-                            # a vector result that differs from the scalar call on the same stress is a failure of the vector
-                            # path of the backward function (documented as 'only implemented for the scalar case')
-                            sc = call(fn(make_law(case), "load", br), float(x), t)
-                            if isinstance(sc, str) or abs(sc[0] - v) > 2 * (t + t * abs(w)) or v != v:
-                                return (f"{what}: {fname}({xs!r}) gives {v!r} for the stress {x!r} of the load {w!r}; the scalar call "
-                                        f"{'raises ' + sc if isinstance(sc, str) else 'gives ' + repr(sc[0])}", "seegerbeste-backward-vector")
-                            return (f"{what}: {fname}({xs!r}) gives {v!r} for the stress {x!r} of the load {w!r}",
-                                    sb_class("seegerbeste-tolerance", dev / abs(w), Kp))
+                            F.append((f"{what}: {fname}({xs!r}) gives {v!r} for the stress {x!r} of the load {w!r}",
+                                      self._miss_class(case, "load", br, xs, i, v, "backward", dev / abs(w))))
                     elif dev > t + t * abs(w):
-                        return (f"{what}: {fname}({xs!r}) gives {v!r} for the load {x!r}, root {w!r}",
-                                sb_class("seegerbeste-tolerance", dev / abs(w), Kp))
-        return None
+                        out = not (abs(x) / Kp - (t + t * abs(w)) <= abs(v) <= abs(x) + (t + t * abs(w))) or (v > 0) != (x > 0)
+                        F.append((f"{what}: {fname}({xs!r}) gives {v!r} for the load {x!r}, root {w!r}",
+                                  self._miss_class(case, "stress", br, xs, i, v, "outside-bracket" if out else "tolerance", dev / abs(w))))
+        # every element of the forward vector as its scalar call
+        for x, sc, rx in zip(z["loads"], z["scalar"], refz):
+            if x == 0:
+                continue
+            if isinstance(sc, str):
+                F.append((f"{what}: scalar load {x!r} raises {sc}",
+                          self._miss_class(case, "stress", br, float(x), 0, sc, "raises", math.inf) if sc == "RuntimeError" else f"{name}-scalar-input"))
+            elif not (sc[0] == sc[0]) or abs(sc[0] - rx) > t + t * abs(rx):
+                out = not (abs(x) / Kp - (t + t * abs(rx)) <= abs(sc[0]) <= abs(x) + (t + t * abs(rx))) or (sc[0] > 0) != (x > 0)
+                F.append((f"{what}: scalar load {x!r} gives {sc[0]!r}, root {rx!r}",
+                          self._miss_class(case, "stress", br, float(x), 0, sc[0], "outside-bracket" if out else "tolerance",
+                                           abs(sc[0] - rx) / abs(rx) if sc[0] == sc[0] else math.inf)))
+        return F
 
     def shrink(self, case, still_fails):
         cur = dict(case)
